@@ -95,6 +95,18 @@ pub fn gen_moving_directive_behind_static_prefix(t: &mut Tape) -> (Program, Prog
     }
     items.push(Item::Label { dots: 0, name: "buf_end".into() });
     items.push(Item::Instr(Instr { mnemonic: "lag".into(), ops: vec![InsOp { wrap: Wrap::None, op: IOp::Word("buf_end".into()) }] }));
+    // v3: a fixed-size rule with an UNTYPED parameter naming the (moving) label behind it, in a program that may also
+    // declare a literal constant spelled like that parameter (`p0 = 0x1234`): the parameter, not the constant, is meant
+    let jq = crate::engine::gen_version() >= 3 && t.chance(2, 3);
+    if jq {
+        isa.blocks[0].rules.push(Rule {
+            mnemonic: "jq".into(),
+            ops: vec![PatOp { wrap: Wrap::None, op: POp::Param { name: "p0".into(), ty: PType::Untyped } }],
+            prod: crate::gen::isa::concat_all(vec![crate::gen::isa::sized_lit(0x40, 8), E::SliceShort(Box::new(E::Var("p0".into())), Box::new(lit(16)))]),
+            size: 24,
+        });
+        items.push(Item::Instr(Instr { mnemonic: "jq".into(), ops: vec![InsOp { wrap: Wrap::None, op: IOp::Word("buf_end".into()) }] }));
+    }
     items.push(Item::Label { dots: 0, name: "tstart".into() });
     items.push(Item::Res(lit(k)));
     items.push(Item::Label { dots: 0, name: "tend".into() });
@@ -102,6 +114,9 @@ pub fn gen_moving_directive_behind_static_prefix(t: &mut Tape) -> (Program, Prog
     items.push(Item::Data { width: Some(8), elems: vec![lit(0xbb)] });
     if !early {
         items.push(decl);
+    }
+    if jq && t.flip() {
+        items.push(Item::Const { dots: 0, name: "p0".into(), e: lit(0x1234), noemit: false });
     }
     let info = ProgInfo { n_instr: 2, symbol_operands: 2, forward_refs: true, ..Default::default() };
     (Program { isa, items }, info)
